@@ -1,7 +1,6 @@
 package c18
 
 import (
-	"bytes"
 	"encoding/base32"
 	"context"
 	"fmt"
@@ -44,7 +43,7 @@ func observer(w *world, fs *[]core.Finding, name string) func(step, last int) {
 			b, _ := os.ReadFile(p)
 			ok := false
 			for _, k := range allKeys {
-				if bytes.Equal(b, contentOf(k)) {
+				if isContentOf(k, b) {
 					ok = true
 				}
 			}
@@ -88,6 +87,9 @@ func runSchedule(c SCase) schedResult {
 				case "put":
 					err := s.Put(ctx, op.Key, append([]byte(nil), want...))
 					results[ti] = append(results[ti], fmt.Sprintf("put:%v", err == nil))
+				case "put2":
+					err := s.Put(ctx, op.Key, altContentOf(op.Key))
+					results[ti] = append(results[ti], fmt.Sprintf("put:%v", err == nil))
 				case "stream2":
 					wr, commit, err := s.PutStream(ctx)
 					if err != nil {
@@ -103,7 +105,7 @@ func runSchedule(c SCase) schedResult {
 					switch {
 					case err != nil:
 						results[ti] = append(results[ti], "get:absent")
-					case bytes.Equal(got, want):
+					case isContentOf(op.Key, got):
 						results[ti] = append(results[ti], "get:complete")
 					default:
 						results[ti] = append(results[ti], "get:PARTIAL")
@@ -148,6 +150,8 @@ func harnesses(quick bool) []SCase {
 		{Name: "stream-writer-reader-has", Threads: [][]TOp{{{"stream2", "k1"}}, {{"has", "k1"}, {"get", "k1"}}}},
 		{Name: "writer-writer-different-shards", Threads: [][]TOp{{{"put", "k1"}}, {{"put", "k2"}}}},
 		// two Store values opened on the one directory (two handles in a process, or two processes)
+		// the same key written again with another (shorter) content while it is read
+		{Name: "rewriter-reader", Threads: [][]TOp{{{"put", "k1"}, {"put2", "k1"}}, {{"get", "k1"}, {"get", "k1"}}}},
 		{Name: "two-stores-stream-writers", Stores: 2, Threads: [][]TOp{{{"stream2", "k1"}}, {{"stream2", "k2"}}}},
 		{Name: "two-stores-writer-writer-same-key", Stores: 2, Threads: [][]TOp{{{"put", "k1"}}, {{"stream2", "k1"}}}},
 	}
